@@ -234,7 +234,7 @@ Example c16_nonvacuous_here :
 Proof. vm_compute. repeat split; try discriminate; reflexivity. Qed.
 
 (* ---- text side (Mem/StreamText.v: the stream model composed with the transcoder model of C01-C03) ---- *)
-From ST Require Import Mem.StreamText Mem.StreamTextProofs Utf.Spec Utf.Tokens Utf.Model Utf.ProofsC01.
+From ST Require Import Base.Units Mem.StreamText Mem.StreamTextProofs Utf.Spec Utf.Tokens Utf.Model Utf.ProofsC01.
 
 (* to_string() of a stream holding well-formed UTF-8 returns exactly the bytes appended, in every validation
    mode, and leaves the stream unchanged; to_string(false) is the Latin-1 reading transcoded to UTF-8 *)
